@@ -167,17 +167,25 @@ def search (r : Rx) : Str → Option (Nat × Str × Str)
     | some rest => some (0, (c :: t).take ((c :: t).length - rest.length), rest)
     | none => (search r t).map fun (k, m, rest) => (k+1, m, rest)
 
-/-- `finditer`: leftmost match, then restart at its end (one character further after an empty
-match, which JASM patterns in the properties' domain never produce) -/
-def findAllAux (r : Rx) : Nat → Str → List Str
-  | 0, _ => []
-  | fuel+1, s => match search r s with
-    | none => []
-    | some (_, m, rest) =>
-      if m.isEmpty then
-        m :: (match rest with | [] => [] | _ :: t => findAllAux r fuel t)
-      else m :: findAllAux r fuel rest
+/-- first match of `r` at the very start of `s` that consumes at least one character -/
+def matchAtNonEmpty (r : Rx) (s : Str) : Option Str :=
+  (((r.run [] s).find? fun x => x.2.length < s.length)).map (·.2)
 
-def findAll (r : Rx) (s : Str) : List Str := findAllAux r (s.length + 1) s
+/-- `finditer`: leftmost match, then restart at its end.  Directly after an *empty* match the
+engine retries the same position but accepts only a non-empty match there (`forbid`). -/
+def findAllAux (r : Rx) : Nat → Bool → Str → List Str
+  | 0, _, _ => []
+  | fuel+1, forbid, s =>
+    if forbid then
+      match matchAtNonEmpty r s with
+      | some rest => s.take (s.length - rest.length) :: findAllAux r fuel false rest
+      | none => match s with
+        | [] => []
+        | _ :: t => findAllAux r fuel false t
+    else match search r s with
+      | none => []
+      | some (_, m, rest) => m :: findAllAux r fuel m.isEmpty rest
+
+def findAll (r : Rx) (s : Str) : List Str := findAllAux r (2 * s.length + 2) false s
 
 end Jasm
